@@ -69,6 +69,40 @@ func checkC12(r *core.Run, p *core.Program) {
 	// K: concrete key types
 	K := map[string]types.Type{}
 	sites := 0
+	// an interface-typed argument that is a parameter of an unexported helper is traced to the helper's call sites
+	var addArg func(arg ast.Expr, depth int)
+	addArg = func(arg ast.Expr, depth int) {
+		t := info.TypeOf(arg)
+		if tv, ok := info.Types[arg]; ok && tv.Value != nil {
+			t = types.Default(t)
+		}
+		if _, isIface := t.Underlying().(*types.Interface); isIface {
+			pv, isVar := objOf(info, arg).(*types.Var)
+			if !isVar || depth > 3 {
+				return
+			}
+			for _, g := range funcsOf(pkg) {
+				if g.Obj.Exported() {
+					continue
+				}
+				sig := g.Obj.Type().(*types.Signature)
+				for i := 0; i < sig.Params().Len(); i++ {
+					if sig.Params().At(i) != pv {
+						continue
+					}
+					for _, h := range funcsOf(pkg) {
+						inspectCalls(info, h.Decl.Body, func(call *ast.CallExpr, cal *types.Func) {
+							if cal == g.Obj && i < len(call.Args) {
+								addArg(call.Args[i], depth+1)
+							}
+						})
+					}
+				}
+			}
+			return
+		}
+		K[types.TypeString(t, func(p *types.Package) string { return p.Name() })] = t
+	}
 	for _, f := range funcsOf(pkg) {
 		inspectCalls(info, f.Decl.Body, func(call *ast.CallExpr, cal *types.Func) {
 			if cal == nil {
@@ -83,17 +117,10 @@ func checkC12(r *core.Run, p *core.Program) {
 				return
 			}
 			sites++
-			t := info.TypeOf(arg)
-			if tv, ok := info.Types[arg]; ok && tv.Value != nil {
-				t = types.Default(t)
-			}
-			if _, isIface := t.Underlying().(*types.Interface); isIface {
-				return
-			}
-			K[types.TypeString(t, func(p *types.Package) string { return p.Name() })] = t
+			addArg(arg, 0)
 		})
 	}
-	r.Floor("C12.normalise", "key boxing sites", sites, 20)
+	r.Floor("C12.normalise", "key boxing sites", sites, 12)
 	// type switch of NotifyKey
 	var ts *ast.TypeSwitchStmt
 	ast.Inspect(nk.Decl.Body, func(n ast.Node) bool {
@@ -128,26 +155,20 @@ func checkC12(r *core.Run, p *core.Program) {
 			return out
 		}
 		assigned := false
-		ast.Inspect(cc, func(n ast.Node) bool {
-			switch s := n.(type) {
-			case *ast.AssignStmt:
-				for i, lhs := range s.Lhs {
-					if objOf(info, lhs) == keyParam && i < len(s.Rhs) {
-						assigned = true
-						rt := info.TypeOf(s.Rhs[i])
-						out[rt.String()] = rt
-					}
+		for _, w := range keyWrites(p, info, cc.Body, keyParam, nk.Obj) {
+			assigned = true
+			if w.recurse {
+				for k, v := range canon(info.TypeOf(w.rhs), depth+1) {
+					out[k] = v
 				}
-			case *ast.CallExpr:
-				if callee(info, s) == nk.Obj && len(s.Args) == 1 {
-					assigned = true
-					for k, v := range canon(info.TypeOf(s.Args[0]), depth+1) {
-						out[k] = v
-					}
-				}
+				continue
 			}
-			return true
-		})
+			rt := info.TypeOf(w.rhs)
+			if tv, ok := info.Types[w.rhs]; ok && tv.Value != nil {
+				rt = types.Default(rt)
+			}
+			out[rt.String()] = rt
+		}
 		if !assigned {
 			out[t.String()] = t
 		}
@@ -200,19 +221,27 @@ func checkC12(r *core.Run, p *core.Program) {
 			shapeOK := true
 			switch {
 			case typeIs(t, "math/big", "Int"):
-				// first test must be IsUint64
-				first := ""
-				ast.Inspect(cc, func(nd ast.Node) bool {
-					if ifs, ok := nd.(*ast.IfStmt); ok && first == "" {
-						if c, ok := stripParens(ifs.Cond).(*ast.CallExpr); ok {
-							if cal := callee(info, c); cal != nil {
-								first = cal.Name()
-							}
+				// the outermost test guarding every rewrite must be IsUint64, and its true side yields uint64
+				ok1, n1 := true, 0
+				for _, w := range keyWrites(p, info, cc.Body, keyParam, nk.Obj) {
+					n1++
+					if len(w.guards) == 0 {
+						ok1 = false
+						continue
+					}
+					g := w.guards[0]
+					c, isCall := stripParens(g.cond).(*ast.CallExpr)
+					if !isCall || callee(info, c) == nil || callee(info, c).Name() != "IsUint64" {
+						ok1 = false
+						continue
+					}
+					if !g.neg && len(w.guards) == 1 {
+						if b, isB := info.TypeOf(w.rhs).(*types.Basic); !isB || b.Kind() != types.Uint64 {
+							ok1 = false
 						}
 					}
-					return true
-				})
-				if first != "IsUint64" {
+				}
+				if !ok1 || n1 == 0 {
 					shapeOK, detail = false, "the first test on a *big.Int key must be IsUint64 (values 0..2^63-1 satisfy IsInt64 too and must become uint64)"
 				}
 			case t.String() == core.ModulePath+"/rules.negint":
@@ -236,29 +265,25 @@ func checkC12(r *core.Run, p *core.Program) {
 			default:
 				b, _ := t.Underlying().(*types.Basic)
 				if b != nil && b.Info()&types.IsUnsigned == 0 {
-					// signed: needs `if v >= 0 { key = uint64(v) }`
+					// signed: needs a rewrite to uint64 guarded by `v >= 0` (or the else side of `v < 0`)
 					found := false
-					ast.Inspect(cc, func(nd ast.Node) bool {
-						ifs, ok := nd.(*ast.IfStmt)
-						if !ok {
-							return true
+					for _, w := range keyWrites(p, info, cc.Body, keyParam, nk.Obj) {
+						if rt, ok := info.TypeOf(w.rhs).(*types.Basic); !ok || rt.Kind() != types.Uint64 {
+							continue
 						}
-						be, ok := stripParens(ifs.Cond).(*ast.BinaryExpr)
-						if !ok || be.Op != token.GEQ {
-							return true
-						}
-						if k, isC := constInt(info, be.Y); !isC || k != 0 {
-							return true
-						}
-						for _, s := range ifs.Body.List {
-							if as, ok := s.(*ast.AssignStmt); ok && len(as.Rhs) == 1 {
-								if rt, ok := info.TypeOf(as.Rhs[0]).(*types.Basic); ok && rt.Kind() == types.Uint64 {
-									found = true
-								}
+						for _, g := range w.guards {
+							be, ok := stripParens(g.cond).(*ast.BinaryExpr)
+							if !ok {
+								continue
+							}
+							if k, isC := constInt(info, be.Y); isC && k == 0 && ((be.Op == token.GEQ && !g.neg) || (be.Op == token.LSS && g.neg)) {
+								found = true
+							}
+							if k, isC := constInt(info, be.X); isC && k == 0 && ((be.Op == token.LEQ && !g.neg) || (be.Op == token.GTR && g.neg)) {
+								found = true
 							}
 						}
-						return true
-					})
+					}
 					if !found {
 						shapeOK, detail = false, "a signed key must become uint64 when >= 0 (`if v >= 0 { key = uint64(v) }`)"
 					}
@@ -329,4 +354,98 @@ func checkC12(r *core.Run, p *core.Program) {
 	r.Check("C12.lookup", "rules.Context.NotifyKey|lookup-reject-insert", nk.Decl.Pos(),
 		lookupPos.IsValid() && insertPos.IsValid() && rejectOK && lookupPos < insertPos && ts.End() < lookupPos,
 		"NotifyKey must, after canonicalising, look the key up in CurrentEntry.Keys, reject when present, and insert it otherwise")
+}
+
+// keyWrite is one value given to the key inside a case of NotifyKey's type switch: directly (`key = X`), through
+// an extracted helper whose result is assigned (`key = helper(v)`: each `return X` of the helper), or by a
+// recursive NotifyKey(X) call; guards are the conditions that enclose it, outermost first.
+type keyGuard struct {
+	cond ast.Expr
+	neg  bool
+}
+type keyWrite struct {
+	rhs     ast.Expr
+	guards  []keyGuard
+	recurse bool
+}
+
+func keyWrites(p *core.Program, info *types.Info, body []ast.Stmt, keyParam types.Object, notifyKey *types.Func) []keyWrite {
+	var out []keyWrite
+	var stmts func(list []ast.Stmt, guards []keyGuard, isHelper bool, depth int)
+	var value func(e ast.Expr, guards []keyGuard, depth int)
+	with := func(g []keyGuard, c ast.Expr, neg bool) []keyGuard {
+		return append(append([]keyGuard{}, g...), keyGuard{c, neg})
+	}
+	value = func(e ast.Expr, guards []keyGuard, depth int) {
+		if call, ok := stripParens(e).(*ast.CallExpr); ok && depth < 3 {
+			if cal := callee(info, call); cal != nil && core.InModule(cal) && cal.Pkg() == notifyKey.Pkg() {
+				if _, isIface := info.TypeOf(e).Underlying().(*types.Interface); isIface {
+					if d := p.FuncDecl(cal); d != nil && d.Body != nil {
+						stmts(d.Body.List, guards, true, depth+1)
+						return
+					}
+				}
+			}
+		}
+		out = append(out, keyWrite{rhs: e, guards: guards})
+	}
+	stmts = func(list []ast.Stmt, guards []keyGuard, isHelper bool, depth int) {
+		for _, st := range list {
+			switch s := st.(type) {
+			case *ast.AssignStmt:
+				for i, lhs := range s.Lhs {
+					if !isHelper && objOf(info, lhs) == keyParam && i < len(s.Rhs) {
+						value(s.Rhs[i], guards, depth)
+					}
+				}
+			case *ast.ReturnStmt:
+				if isHelper && len(s.Results) == 1 {
+					value(s.Results[0], guards, depth)
+				}
+			case *ast.ExprStmt:
+				if call, ok := s.X.(*ast.CallExpr); ok && callee(info, call) == notifyKey && len(call.Args) == 1 {
+					out = append(out, keyWrite{rhs: call.Args[0], guards: guards, recurse: true})
+				}
+			case *ast.IfStmt:
+				stmts(s.Body.List, with(guards, s.Cond, false), isHelper, depth)
+				g2 := with(guards, s.Cond, true)
+				switch e := s.Else.(type) {
+				case *ast.BlockStmt:
+					stmts(e.List, g2, isHelper, depth)
+				case *ast.IfStmt:
+					stmts([]ast.Stmt{e}, g2, isHelper, depth)
+				case nil:
+					// statements after an `if c { ...; return }` in a helper are the else side
+					if isHelper && len(s.Body.List) > 0 {
+						if _, isRet := s.Body.List[len(s.Body.List)-1].(*ast.ReturnStmt); isRet {
+							guards = g2
+						}
+					}
+				}
+			case *ast.SwitchStmt:
+				g := guards
+				for _, c := range s.Body.List {
+					cc := c.(*ast.CaseClause)
+					if s.Tag == nil && len(cc.List) == 1 {
+						stmts(cc.Body, with(g, cc.List[0], false), isHelper, depth)
+						g = with(g, cc.List[0], true)
+					} else {
+						stmts(cc.Body, g, isHelper, depth)
+					}
+				}
+			case *ast.BlockStmt:
+				stmts(s.List, guards, isHelper, depth)
+			case *ast.ForStmt:
+				stmts(s.Body.List, guards, isHelper, depth)
+			case *ast.RangeStmt:
+				stmts(s.Body.List, guards, isHelper, depth)
+			case *ast.TypeSwitchStmt:
+				for _, c := range s.Body.List {
+					stmts(c.(*ast.CaseClause).Body, guards, isHelper, depth)
+				}
+			}
+		}
+	}
+	stmts(body, nil, false, 0)
+	return out
 }
